@@ -212,7 +212,9 @@ impl Drop for ThreadPool {
             if let Some(thread) = recovery_thread.0.take() {
                 #[cfg(humphrey_verif)]
                 crate::thread::verif::pool_event(crate::thread::verif::PoolEvent::DropRecoveryHandle);
-                thread.join().unwrap();
+                // The recovery thread never finishes (it loops on a channel of which it holds a sender
+                // itself), so joining it would block forever. Detach it instead, as `stop` does.
+                drop(thread);
             }
         }
 
